@@ -486,3 +486,25 @@ Definition agree (c : case) : bool :=
 
 (* the property on what the implementation left behind *)
 Definition ok (c : case) : bool := ref_ok (c_obs_final c).
+
+(* window 3 (three operations): a RemoveNode acts on a stale record: between its
+   GetNode(n) and its plugin removal, another thread removed the node record *)
+Definition window_stale_removenode (tr : list ev) : bool :=
+  let idx := seq 0 (List.length tr) in
+  existsb (fun ig =>
+    match nth_error tr ig with
+    | Some (t1, CGetNode n, true) =>
+        existsb (fun ip =>
+          match nth_error tr ip with
+          | Some (t1', PRemoveNode n', _) =>
+              Nat.eqb t1 t1' && String.eqb n n' && Nat.ltb ig ip &&
+              existsb (fun ir =>
+                match nth_error tr ir with
+                | Some (t2, CRemoveNode n'', true) =>
+                    negb (Nat.eqb t1 t2) && String.eqb n n'' && Nat.ltb ig ir && Nat.ltb ir ip
+                | _ => false
+                end) idx
+          | _ => false
+          end) idx
+    | _ => false
+    end) idx.
